@@ -144,4 +144,200 @@ Proof.
     apply ok_single; [exact Logic.I|discriminate|discriminate].
 Qed.
 
+(* ------------------------------------------------------------------ one step *)
+
+Definition progs_ok (s : state) : Prop := forall th, In th (s_thr s) -> forallb prog_ok (t_prog th) = true.
+
+Lemma in_upd : forall A (l : list A) i x y, In y (upd l i x) -> y = x \/ In y l.
+Proof.
+  induction l as [|h t IH]; intros [|i] x y H; cbn in *; auto.
+  - destruct H; auto.
+  - destruct H as [H|H]; auto. destruct (IH _ _ _ H); auto.
+Qed.
+
+Lemma thr_in : forall s t, t < length (s_thr s) -> In (thr s t) (s_thr s).
+Proof. intros. unfold thr. apply nth_In; auto. Qed.
+
+Theorem step_inv1 : forall s t, inv1 K s -> progs_ok s -> t < length (s_thr s) ->
+  inv1 K (fst (step N K s t)) /\ progs_ok (fst (step N K s t)) /\ bad124 (snd (step N K s t)) = false.
+Proof.
+  intros s t I HP Ht. unfold step. fold (thr s t).
+  pose proof (HP _ (thr_in s t Ht)) as Hprog.
+  destruct (thr s t) as [stk todo prog] eqn:E. cbn [t_todo t_stk t_prog] in *.
+  destruct todo as [|a rest].
+  - destruct prog as [|op prog].
+    + cbn. auto.
+    + destruct (begin_op K (s_heap s) stk op) as [[[h' stk'] todo'] ok] eqn:Hb. cbn [fst snd].
+      cbn in Hprog. apply andb_true_iff in Hprog. destruct Hprog as (Hop & Hrest).
+      split; [|split; [|reflexivity]].
+      * apply (begin_inv s t stk op prog I Ht E Hop h' stk' todo' ok Hb).
+      * intros th Hin. cbn [s_thr] in Hin. apply in_upd in Hin. destruct Hin as [->|Hin]; auto.
+  - assert (C : ctx K s t stk a rest prog) by (constructor; auto).
+    destruct (do_act N K (s_heap s) (s_pool s) stk a rest) as [[[[h' stk'] todo'] p'] ev] eqn:Hdo. cbn [fst snd].
+    assert (HPP : progs_ok (mkSt h' (upd (s_thr s) t (mkThr stk' todo' prog)) p')).
+    { intros th Hin. cbn [s_thr] in Hin. apply in_upd in Hin. destruct Hin as [->|Hin]; auto. }
+    assert (Hgoal : inv1 K (with_thr s t (mkThr stk' todo' prog) h' p') /\ bad124 ev = false).
+    { destruct a.
+      - eapply act_inc; eauto.
+      - eapply act_dec; eauto.
+      - eapply act_deckeep; eauto.
+      - eapply act_take; eauto.
+      - eapply act_untag; eauto.
+      - eapply act_store; eauto.
+      - eapply act_rel; eauto.
+      - eapply act_poolobt; eauto.
+      - eapply act_drain; eauto.
+      - eapply act_slabdel; eauto. }
+    destruct Hgoal as (G1 & G2). split; [exact G1|split; auto].
+Qed.
+
+(* ------------------------------------------------------------------ all reachable states *)
+
+Inductive reachable (s0 : state) : state -> Prop :=
+| r_refl : reachable s0 s0
+| r_step : forall s t, reachable s0 s -> t < length (s_thr s) -> reachable s0 (fst (step N K s t)).
+
+Theorem reachable_inv1 : forall s0 s, inv1 K s0 -> progs_ok s0 -> reachable s0 s -> inv1 K s /\ progs_ok s.
+Proof.
+  intros s0 s I0 P0 H. induction H as [|s t H IH Ht]; auto.
+  destruct IH as (I & P). destruct (step_inv1 s t I P Ht) as (A & B & _). auto.
+Qed.
+
+Lemma init_sums : forall stksize progs o,
+  sumf (thr_units o) (map (fun pr => mkThr (repeat None stksize) [] pr) progs) = 0 /\
+  sumf (thr_debts o) (map (fun pr => mkThr (repeat None stksize) [] pr) progs) = 0 /\
+  sumf (fun t => sumf (rel_count o) (t_todo t)) (map (fun pr => mkThr (repeat None stksize) [] pr) progs) = 0.
+Proof.
+  intros stksize progs o. induction progs as [|p ps (IH1 & IH2 & IH3)]; [cbn; auto|].
+  cbn [map sumf]. rewrite IH1, IH2, IH3. unfold thr_units. cbn [t_stk t_todo sumf]. rewrite refs_in_none. auto.
+Qed.
+
+Lemma init_inv1 : forall max stksize progs, inv1 K (init_state max stksize progs).
+Proof.
+  intros max stksize progs. unfold init_state.
+  assert (Hu : forall o, sumf (thr_units o) (map (fun pr => mkThr (repeat None stksize) [] pr) progs) = 0) by (intros; apply init_sums).
+  assert (Hd : forall o, sumf (thr_debts o) (map (fun pr => mkThr (repeat None stksize) [] pr) progs) = 0) by (intros; apply init_sums).
+  assert (Hr : forall o, sumf (fun t => sumf (rel_count o) (t_todo t)) (map (fun pr => mkThr (repeat None stksize) [] pr) progs) = 0) by (intros; apply init_sums).
+  assert (Hget : forall o, get_obj [] o = dobj) by (intros [|o]; reflexivity).
+  assert (Hth : forall t, t < length (map (fun pr => mkThr (repeat None stksize) [] pr) progs) ->
+            t_todo (nth t (map (fun pr => mkThr (repeat None stksize) [] pr) progs) dthr) = []).
+  { intros t Ht. rewrite map_length in Ht.
+    rewrite (nth_indep _ dthr (mkThr (repeat None stksize) [] [])) by (rewrite map_length; auto).
+    rewrite (map_nth (fun pr => mkThr (repeat None stksize) [] pr)). reflexivity. }
+  constructor; cbn [s_heap s_thr s_pool]; unfold units, debts, rels, hobj, thr; cbn [s_heap s_thr].
+  - intros o. rewrite Hu, Hd, Hget. reflexivity.
+  - intros o _. rewrite Hu. reflexivity.
+  - intros o Ho. cbn in Ho. lia.
+  - intros t Ht. rewrite (Hth t Ht). apply (sh_frames []). reflexivity.
+  - intros t a Ht Hin. rewrite (Hth t Ht) in Hin. destruct Hin.
+  - intros o. rewrite Hr, Hget. reflexivity.
+  - intros o Ho. cbn in Ho. lia.
+Qed.
+
+(* C10, the counting protocol: for any number of threads running any programs (of the repaired
+   operations), from any state satisfying the invariant - in particular the initial one - every
+   reachable state satisfies:
+     (1) count o + increments in flight for o = counting references to o (stack slots of all threads,
+         member slots of all objects, references held by operations in flight);
+     (2) an object that is not live (being released, in the pool, destroyed) is referenced by no
+         counting reference at all;
+     (3) no step of any thread increments or decrements a non-live object, decrements below zero, or
+         runs a release step on an object that is not being released (so nothing is released twice);
+     (4) each object has been brought to life exactly once more than it was released iff it is live. *)
+Theorem free_once_after_last : forall s0 s, inv1 K s0 -> progs_ok s0 -> reachable s0 s ->
+  (forall o, o_cnt (hobj s o) + debts o s = units o s) /\
+  (forall o, is_live (hobj s o) = false -> units o s = 0 /\ o_cnt (hobj s o) = 0) /\
+  (forall t, t < length (s_thr s) -> bad124 (snd (step N K s t)) = false) /\
+  (forall o, o < length (s_heap s) -> o_births (hobj s o) = o_deaths (hobj s o) + (if is_live (hobj s o) then 1 else 0)).
+Proof.
+  intros s0 s I0 P0 H. destruct (reachable_inv1 s0 s I0 P0 H) as (I & P).
+  split; [|split; [|split]].
+  - intros o. symmetry. apply (i_count K s I).
+  - intros o Ho. pose proof (i_nolive K s I o Ho). pose proof (i_count K s I o). lia.
+  - intros t Ht. destruct (step_inv1 s t I P Ht) as (_ & _ & B). exact B.
+  - intros o Ho. apply (i_ghost K s I o Ho).
+Qed.
+
+(* a counting reference in any slot points to a live object whose count is at least the number of
+   counting slots that hold it: nothing is released while a reference to it exists *)
+Theorem never_early : forall s0 s, inv1 K s0 -> progs_ok s0 -> reachable s0 s ->
+  forall o, slots o s <= o_cnt (hobj s o) /\ (1 <= slots o s -> is_live (hobj s o) = true).
+Proof.
+  intros s0 s I0 P0 H o. destruct (reachable_inv1 s0 s I0 P0 H) as (I & P).
+  split; [apply (cnt_ge_slots K); auto|]. intros Hs. apply (live_of_units K); auto. pose proof (slots_le_units s o). lia.
+Qed.
+
+(* ------------------------------------------------------------------ schedules *)
+
+Lemma step_len : forall s t, length (s_thr (fst (step N K s t))) = length (s_thr s).
+Proof.
+  intros s t. unfold step. destruct (t_todo (nth t (s_thr s) dthr)) as [|a rest].
+  - destruct (t_prog (nth t (s_thr s) dthr)) as [|op prog]; auto.
+    destruct (begin_op K (s_heap s) (t_stk (nth t (s_thr s) dthr)) op) as [[[h' stk'] todo'] ok]. cbn. apply upd_length.
+  - destruct (do_act N K (s_heap s) (s_pool s) (t_stk (nth t (s_thr s) dthr)) a rest) as [[[[h' stk'] todo'] p'] ev]. cbn. apply upd_length.
+Qed.
+
+Lemma run_sched_reachable : forall sched s0 s, reachable s0 s -> Forall (fun t => t < length (s_thr s)) sched ->
+  reachable s0 (fst (run_sched N K s sched)).
+Proof.
+  induction sched as [|t r IH]; intros s0 s H Hs; cbn [run_sched]; auto.
+  inversion Hs as [|x l Ht Hr]; subst.
+  destruct (step N K s t) as [s1 ev] eqn:E1. destruct (run_sched N K s1 r) as [s2 evs] eqn:E2. cbn [fst].
+  assert (Hs1 : s1 = fst (step N K s t)) by (rewrite E1; auto).
+  assert (R1 : reachable s0 s1) by (rewrite Hs1; apply r_step; auto).
+  specialize (IH s0 s1 R1). rewrite E2 in IH. apply IH.
+  rewrite Hs1, step_len. exact Hr.
+Qed.
+
+(* no schedule of a program of repaired operations produces a lifetime violation event *)
+Theorem run_sched_safe : forall sched s, inv1 K s -> progs_ok s -> Forall (fun t => t < length (s_thr s)) sched ->
+  forallb (fun e => negb (bad124 e)) (snd (run_sched N K s sched)) = true.
+Proof.
+  induction sched as [|t r IH]; intros s I P Hs; cbn [run_sched]; auto.
+  inversion Hs as [|x l Ht Hr]; subst.
+  destruct (step_inv1 s t I P Ht) as (I1 & P1 & B1).
+  destruct (step N K s t) as [s1 ev] eqn:E1. destruct (run_sched N K s1 r) as [s2 evs] eqn:E2. cbn [snd fst] in *.
+  specialize (IH s1 I1 P1). rewrite E2 in IH. cbn [snd] in IH. cbn [forallb]. rewrite B1. cbn [negb andb]. apply IH.
+  replace s1 with (fst (step N K s t)) by (rewrite E1; auto). rewrite step_len. exact Hr.
+Qed.
+
 End Main.
+
+(* ------------------------------------------------------------------ the unrepaired order (F11), refuted *)
+
+(* two objects X (slot 0) and Y (slot 1); X.m0 := Y; the stack reference to Y is dropped;
+   then  slot0 = slot0()->m0  with SetRef in the unrepaired order: the release of X cascades into Y,
+   and Y is then incremented although it has been destroyed *)
+Definition f11_prog (repaired : bool) : list op :=
+  [ONew 0 false; ONew 1 false; OAssign (LMem 0 0) (LStk 1); OReset (LStk 1);
+   if repaired then OAssign (LStk 0) (LMem 0 0) else OAssignOld (LStk 0) (LMem 0 0)].
+
+Lemma old_order_refuted :
+  exists sched, existsb ev_is_bad (snd (run_sched 1 2 (init_state 0 4 [f11_prog false]) sched)) = true.
+Proof. exists (repeat 0 40). vm_compute. reflexivity. Qed.
+
+Lemma repaired_order_same_history_fine :
+  existsb ev_is_bad (snd (run_sched 1 2 (init_state 0 4 [f11_prog true]) (repeat 0 40))) = false.
+Proof. vm_compute. reflexivity. Qed.
+
+(* non-vacuity: a reachable state with two threads sharing objects, counts above one, a pooled
+   object recycled and a slab created *)
+Definition demo_progs : list (list op) :=
+  [ [ONew 0 true; ONew 1 false; OAssign (LMem 0 0) (LStk 1); OAssign (LStk 2) (LStk 0); OAlias (LStk 3) (LStk 1); OReset (LStk 1)];
+    [ONew 0 true; OAssign (LStk 1) (LStk 0); OConstCast (LStk 2) (LStk 1); OReset (LStk 0); OReset (LStk 1); OReset (LStk 2); ONew 3 true] ].
+
+Definition demo_sched : list nat := [0;1;0;1;0;1;0;1;0;1;0;1;0;1;0;1;0;1;0;1;0;1;0;1;0;1;0;1;0;1;1;1;1;1;1;1;1;1;1;1;1;1;1;1;0;0;0;0;0;0].
+
+Example demo_reachable :
+  let s0 := init_state 1 4 demo_progs in
+  let s := fst (run_sched 2 2 s0 demo_sched) in
+  inv1 2 s0 /\ progs_ok s0 /\ reachable 2 2 s0 s /\
+  2 <= length (s_heap s) /\ o_cnt (hobj s 1) = 2 /\ existsb (fun ob => 1 <=? o_deaths ob) (s_heap s) = true.
+Proof.
+  cbn zeta. split; [apply init_inv1|]. split.
+  - intros th Hin. cbn in Hin. destruct Hin as [<-|[<-|[]]]; reflexivity.
+  - split.
+    + apply run_sched_reachable; [apply r_refl|]. apply Forall_forall. intros t Ht. cbn.
+      unfold demo_sched in Ht. repeat (destruct Ht as [<-|Ht]; [lia|]). destruct Ht.
+    + vm_compute. repeat split; auto.
+Qed.
